@@ -20,6 +20,7 @@ type Env struct {
 	pkg   *types.Package
 	held  func(st *State, lockAddr string) string
 	recFuel map[string]string // rec spec fn name -> fuel term to use for calls inside its own definition
+	bound bool // evaluating under SMT binders (quantifier body, spec fn definition): nothing may be hoisted into global constants
 }
 
 func (env *Env) with(name string, v Val) *Env {
@@ -255,6 +256,22 @@ func (env *Env) eval(e Expr, hint types.Type) Val {
 		return env.evalQuant(x)
 	case *ELet:
 		v := env.eval(x.X, nil)
+		if env.bound && v.Addr == "" {
+			// under binders the bound term may mention bound variables: use an SMT let instead of a global definition
+			var binds []string
+			names := make([]string, len(v.C))
+			for i, c := range vc.flat(v.T) {
+				names[i] = "l_" + x.Name + sanitize(c.suf)
+				binds = append(binds, "("+names[i]+" "+v.C[i]+")")
+			}
+			r := env.with(x.Name, Val{T: v.T, C: names, Loc: v.Loc}).eval(x.Body, hint)
+			out := make([]string, len(r.C))
+			for i, c := range r.C {
+				out[i] = "(let (" + strings.Join(binds, " ") + ") " + c + ")"
+			}
+			r.C = out
+			return r
+		}
 		v = vc.defineVal("let_"+x.Name, v)
 		return env.with(x.Name, v).eval(x.Body, hint)
 	}
@@ -671,6 +688,7 @@ func (env *Env) evalQuant(x *EQuant) Val {
 		n = n.with(qv.Name, Val{T: t, C: []string{name}})
 		binders = append(binders, "("+name+" "+srt+")")
 	}
+	n.bound = true
 	vc.qdepth++
 	body := func() Val {
 		defer func() { vc.qdepth-- }()
@@ -942,7 +960,7 @@ func (vc *VC) declareSpecFn(sf *SpecFn) string {
 		return name
 	}
 	pkg := vc.prog.typesPkgByName(sf.Pkg)
-	env := &Env{vc: vc, pkg: pkg, vars: map[string]Val{}, st: NewState()}
+	env := &Env{vc: vc, pkg: pkg, vars: map[string]Val{}, st: NewState(), bound: true}
 	var binders, sorts []string
 	for _, p := range sf.Params {
 		t := env.resolveType(p.Type)
